@@ -23,7 +23,7 @@ from .c08 import minute, frac_str, close_enough, quiet
 ID = "C09"
 LEAN_MODULE = "EEM.Props.C09"
 BUILD_TARGETS = ["EEM.Props.C09"]
-MODEL_TARGETS = ["EEM.Model.TempAgg"]
+MODEL_TARGETS = ["EEM.Model.TempAgg", "EEM.Model.ResampleMin"]
 DESIGN_REF = "DESIGN.md §5 C09"
 
 METER_ZONES = ["America/New_York", "Europe/Berlin", "Australia/Sydney", "America/Los_Angeles", "America/Chicago", "UTC"]
@@ -241,6 +241,11 @@ def one_case(case, res, sigs, lines, metas):
         bounds = pd.date_range(first, last, freq="D")
         lines.append(" ".join(["tempagg", "inst", ",".join(str(minute(b)) for b in bounds)] + reads))
         metas.append((small, "inst", cap, bounds))
+        # a few small cases also through the MINUTE-GRID model (proved equal to the time-weighted mean: C09_src_minute_grid_mean)
+        if len(reads) <= 24 * 2 * 9 and res["hist"].get("minute_grid_cases", 0) < 4:
+            res["hist"]["minute_grid_cases"] = res["hist"].get("minute_grid_cases", 0) + 1
+            lines.append(" ".join(["tempagg", "inst_min", ",".join(str(minute(b)) for b in bounds)] + reads))
+            metas.append((dict(small, model="minute_grid"), "inst", cap, bounds))
 
 
 def run(ctx):
@@ -339,7 +344,8 @@ LEVEL_TEXT = ("Lean 4 theorems over exact rationals about the per-day aggregatio
 LEVEL_NOTE = ("Hand model; meter-day starts (the meter index the class built) and local midnights are inputs of the model; merge_asof / groupby / "
               "resample semantics are validated by T2 only. The return value of _compute_temperature_features is captured by wrapping the method "
               "inside the harness process (no change to /repo).")
-TECHNIQUE = ("Lean 4 proof (list induction over readings and meter-day starts, exact rationals; the blanking masks of both "
+TECHNIQUE = ("Lean 4 proof (list induction over readings and meter-day starts, exact rationals; refinement proof that the minute-grid mean of "
+             "as_freq(instantaneous) is the time-weighted mean; the blanking masks of both "
              "_compute_temperature_features translated from the source on every run are proved equal to the model's rule) + differential "
              "correspondence with the data classes")
 ASSUMPTIONS = ["feed offsets are whole sampling intervals, as the property states",
